@@ -27,20 +27,19 @@ func ZZ_C06_roundtrip() {
 		netID = vU8("netid")
 		w = &WIF{priv, compress, netID}
 	}
-	w.String()
+	enc := zzWifSer(w)
 	want := append([]byte{netID}, d...)
 	if compress {
 		want = append(want, 1)
 	}
 	want = append(want, zzDsha(want)[:4]...)
-	vAssert("encoded-payload", vEqBytes(zzB58Encoded, want))
+	vAssert("encoded-payload", vEqBytes(enc, want))
 	if compress {
 		vAssert("pubkey-compressed", vEqBytes(w.SerializePubKey(), zzStubSerCompressed(pub)))
 	} else {
 		vAssert("pubkey-uncompressed", vEqBytes(w.SerializePubKey(), zzStubSerUncompressed(pub)))
 	}
-	zzB58Decoded = append([]byte(nil), zzB58Encoded...)
-	w2, err := DecodeWIF("<base58>")
+	w2, err := zzWifParse(enc)
 	vAssert("decodes-back", err == nil && w2 != nil)
 	if w2 == nil {
 		return
@@ -48,8 +47,7 @@ func ZZ_C06_roundtrip() {
 	vAssert("same-flag", w2.CompressPubKey == compress)
 	vAssert("same-net", w2.netID == netID)
 	vAssert("same-key", vEqBytes(w2.PrivKey.D.FillBytes(make([]byte, 32)), d))
-	w2.String()
-	vAssert("same-string", vEqBytes(zzB58Encoded, want))
+	vAssert("same-string", vEqBytes(zzWifSer(w2), want))
 	vReach("end")
 }
 
@@ -76,8 +74,11 @@ func zzWifLen() int {
 func ZZ_C06_strict() {
 	n := zzWifLen()
 	payload := vBytes("payload", n)
-	zzB58Decoded = payload
-	w, err := DecodeWIF("<base58>")
+	if !vSymbolic() && n >= 4 {
+		// the solver's checksum is that of the uninterpreted hash: recompute the real one
+		copy(payload[n-4:], zzDsha(payload[:n-4])[:4])
+	}
+	w, err := zzWifParse(payload)
 	vReach("parsed")
 	if err != nil {
 		vAssert("nil-on-error", w == nil)
@@ -97,7 +98,6 @@ func ZZ_C06_strict() {
 	vAssert("checksum", vEqBytes(payload[n-4:], zzDsha(payload[:n-4])[:4]))
 	vAssert("net-id", w.netID == payload[0])
 	vAssert("key-bytes", vEqBytes(w.PrivKey.D.FillBytes(make([]byte, 32)), payload[1:33]))
-	w.String()
-	vAssert("canonical-reencoding", vEqBytes(zzB58Encoded, payload))
+	vAssert("canonical-reencoding", vEqBytes(zzWifSer(w), payload))
 	_ = chaincfg.MainNetParams
 }
